@@ -661,11 +661,29 @@ def pressure_ok(ir, mr):
     return True
 
 
+def c07_same_gen(rng, tier):
+    return ["cs%d keys=%d g=%d rounds=%d vlen=%d" % (i, rng.choice([1, 2, 8]), rng.choice([8, 32]), budget(tier, 20000, 200000), rng.choice([40, 600]))
+            for i in range(budget(tier, 4, 16))]
+
+
+def c07_same_oracle(line, res):
+    f = gens.fields(res)
+    if not res.startswith("n="):
+        return None
+    if f["miss"] != "0":
+        return "%s of %s concurrent lookups of stored, unexpired entries missed (a repeat must be answered from the cache)" % (f["miss"], f["n"])
+    if f["bad"] != "0":
+        return "%s of %s concurrent lookups returned a value that is not the stored one" % (f["bad"], f["n"])
+    return None
+
+
 PROPS["C07"] = dict(
     kinds=[
         dict(name="cachekey", gen=c07_key_gen, oracle=c07_key_oracle, classify=c07_key_classify,
              respec=key_respec, respec_kind="keyspec", shards=8, timeout=600,
              nontrivial=lambda l, r: True),
+        dict(name="cachesame", gen=c07_same_gen, oracle=c07_same_oracle, model=False, timeout=600,
+             nontrivial=lambda l, r: True, classify=lambda l, r: "g" + gens.fields(l).get("g", "?")),
         dict(name="marker", gen=c07_marker_gen, oracle=c07_marker_oracle, classify=c07_marker_classify,
              shards=4, timeout=600, nontrivial=lambda l, r: r.startswith("OK")),
         dict(name="cache", gen=c07_cache_gen, oracle=c07_cache_oracle, classify=c07_cache_classify,
